@@ -382,6 +382,11 @@ let rec dec_host (s : string) : hostval =
                        f "s" HOther; f "Count" count]
      | '4' -> HStruct [f "privInner" HOther; f "Name" name; f "Count" count]
      | '5' -> HPtr (HStruct [f "ID" count; f "PubInner" HOther; f "Name" name])
+     | '6' -> let shared = HMapIface [(str_of_string "city", name); (str_of_string "zip", count)] in
+              HStruct [f "Name" name; f "Billing" shared; f "Shipping" shared; f "NilA" (HMapIface []); f "NilB" (HMapIface []); f "Count" count]
+     | '7' -> let shared = HMapIface [(str_of_string "city", name); (str_of_string "zip", count)] in
+              HMapIface [(str_of_string "Name", name); (str_of_string "Count", count); (str_of_string "x", shared);
+                         (str_of_string "y", shared); (str_of_string "z", HMapIface [(str_of_string "inner", shared)])]
      | _ -> failwith "bad static host value")
   | 'm' | 'o' -> HMapIface []        (* a nil map reads as an empty one *)
   | 'l' | 'y' -> HSlice []           (* a nil slice reads as an empty one *)
